@@ -58,17 +58,17 @@ Fixpoint Y (k : nat) : T :=
   end.
 
 Lemma len_aT : length aT = n.
-Proof. destruct Wt as (Hm & Hs & Hp). unfold aT, vpush_front. cbn [length]. lia. Qed.
+Proof using Wt Hn. clear Hr. destruct Wt as (Hm & Hs & Hp). unfold aT, vpush_front. cbn [length]. lia. Qed.
 Lemma len_cT : length cT = n.
-Proof. destruct Wt as (Hm & Hs & Hp). unfold cT, vpush. rewrite app_length. cbn [length]. lia. Qed.
+Proof using Wt Hn. clear Hr. destruct Wt as (Hm & Hs & Hp). unfold cT, vpush. rewrite app_length. cbn [length]. lia. Qed.
 Lemma sup_cc k : k < n - 1 -> nth k (tsup t) zero = cc k.
-Proof. destruct Wt as (Hm & Hs & Hp). intros H. unfold cc, cT, vpush. now rewrite app_nth1 by lia. Qed.
+Proof using Wt. clear Hn Hr. destruct Wt as (Hm & Hs & Hp). intros H. unfold cc, cT, vpush. now rewrite app_nth1 by lia. Qed.
 Lemma sub_ca k : nth k (tsub t) zero = ca (S k).
 Proof. reflexivity. Qed.
 
 (* the pivots computed with the arithmetic's own division are the sequence B while no pivot vanishes *)
 Lemma pivot_B k : k < n -> (forall i, i < k -> B i <> zero) -> thomas_pivot t k = Ok (B k).
-Proof.
+Proof using FL Wt. clear Hn Hr.
   destruct Wt as (Hm & Hs & Hp).
   induction k as [|k IH]; intros Hk Hnz.
   - cbn [thomas_pivot B]. unfold cb. apply rd_ok. lia.
